@@ -7,8 +7,11 @@ import time
 from . import build
 
 KNOWN = os.path.join(build.VERIF, "known_findings.json")
-EVID = os.path.join(build.VERIF, "evidence")
-REPLAY = os.path.join(build.VERIF, "evidence", "replay")
+EVID = os.environ.get("VERIF_EVIDENCE_DIR") or (
+    os.path.join(build.WORK, "selftest-evidence")
+    if os.environ.get("VERIF_SELFTEST") else
+    os.path.join(build.VERIF, "evidence"))
+REPLAY = os.path.join(EVID, "replay")
 
 
 def load_known():
